@@ -15,7 +15,9 @@ RULE = (
     "through-range in any keyword/connective spelling, x description blocks from an open vocabulary of aliquots, lots, ALL, "
     "deed prose and multi-line blocks) rendered in each of the four documented layouts (one sub-check per layout, so each "
     "gets the same share) with independently drawn Twp/Rge spelling (11 spellings), colon / 'of' / 'in' connectors, "
-    "comma / semicolon / newline / blank-line / space separators, N/S x E/W and 1-3 digit numbers. Expected tracts are "
+    "comma / semicolon / newline / blank-line / space separators, N/S x E/W and 1-3 digit numbers; in the two section-first layouts the Twp/Rge "
+    "may also be written without its directions (read as N / W, with a warning); the text may come with white space and line breaks "
+    "around it, as pasted text does. Expected tracts are "
     "computed from the abstract value. Non-trivial: >= 2 tracts and at least one of {several Twp/Rge groups, a through-"
     "range, a Twp/Rge spelling other than T154N-R97W style}. Distinct = distinct abstract description incl. rendering choices."
 )
@@ -30,8 +32,18 @@ def ws(s):
     return re.sub(r"\s+", " ", s).strip()
 
 
+LEAD_PAD = ["", "", "", "", "\n", "\n\n", "  ", "\n    ", "\r\n\t", "\t", " \n "]
+TRAIL_PAD = ["", "", "", "\n", "  ", "\n\n", " \n"]
+
+
+def full_text(d):
+    """The rendered description, as pasted text comes: possibly with white space / line breaks around it."""
+    pad = d.get("pad") or ["", ""]
+    return pad[0] + G.render(d) + pad[1]
+
+
 def oracle(d):
-    text = G.render(d)
+    text = full_text(d)
     exp = G.expected_tracts(d)
     desc = PLSSDesc(text)
     got = [(t.trs, t.desc) for t in desc.tracts]
@@ -84,6 +96,8 @@ def nontrivial(d):
 
 def classes(d):
     out = {f"groups={len(d['groups'])}"}
+    if (d.get("pad") or ["", ""])[0]:
+        out.add("leading_whitespace")
     for g in d["groups"]:
         out.add(f"tr={g['tr_sp']}")
         out.add(f"digits={len(str(g['twp']))}/{len(str(g['rge']))}")
@@ -97,15 +111,23 @@ def classes(d):
 
 
 def render(d):
-    return {"layout": d["layout"], "text": G.render(d), "expected": G.expected_tracts(d)}
+    return {"layout": d["layout"], "text": full_text(d), "expected": G.expected_tracts(d)}
+
+
+def case(layout):
+    # a Twp/Rge written without its directions (read with the default N / W) is unambiguous only where a section keyword or the
+    # end of the text follows it: the two layouts in which the section comes first after / before it
+    spellings = tuple(G.TR_SPELLINGS_ALL) if layout in ("TRS_desc", "S_desc_TR") else None
+    return st.tuples(G.description(layout=layout, spellings=spellings), st.sampled_from(LEAD_PAD), st.sampled_from(TRAIL_PAD)).map(
+        lambda t: dict(t[0], pad=[t[1], t[2]]))
 
 
 def mk(layout):
-    return Sub(layout, oracle, strategy=lambda tier, lay=layout: G.description(layout=lay), validate=G.validate,
+    return Sub(layout, oracle, strategy=lambda tier, lay=layout: case(lay), validate=G.validate,
                nontrivial=nontrivial, classes=classes, render=render,
                n={"quick": 550, "thorough": 12000}, shards={"quick": 4, "thorough": 4},
                essential=("groups=2", "groups=3", "sec=range", "sec=list", "tr=words", "tr=abbr", "tr=dashed", "tr=lower",
-                          "multiline_block"))
+                          "multiline_block", "leading_whitespace"))
 
 
 SUBS = [mk(lay) for lay in G.LAYOUTS]
